@@ -903,4 +903,148 @@ Proof.
   eapply denotes_hermitian; [exact (addHopping4_denotes cfg m l1 l2 t n p F1 F2 S1 S2)|apply h_hopping4].
 Qed.
 
+(** ** General form: a list of terms that is closed under adjoints (reversed operator sequence with creation and
+       annihilation exchanged, conjugated value) gives a Hermitian matrix *)
+Definition term_adj (t : term) : term :=
+  mkTerm (rev (map negb (t_ops t))) (rev (t_labels t)) (rev (t_orbs t)) (rev (t_spins t)) (kconj (t_val t)).
+
+Lemma combine_snoc : forall (A B : Type) (a : list A) (b : list B) x y, length a = length b ->
+  combine (a ++ [x]) (b ++ [y]) = combine a b ++ [(x, y)].
+Proof.
+  induction a as [|a0 a IH]; intros [|b0 b] x y H; try discriminate; [reflexivity|].
+  cbn [app combine]. rewrite IH by (cbn in H; lia). reflexivity.
+Qed.
+Lemma combine_rev : forall (A B : Type) (a : list A) (b : list B), length a = length b ->
+  combine (rev a) (rev b) = rev (combine a b).
+Proof.
+  induction a as [|a0 a IH]; intros [|b0 b] H; try discriminate; [reflexivity|].
+  cbn [rev combine]. rewrite combine_snoc by (rewrite !rev_length; cbn in H; lia).
+  rewrite IH by (cbn in H; lia). reflexivity.
+Qed.
+
+Local Notation term_ops := (PresetsSpec.term_ops K L idx).
+Local Notation x_term_matrix := (PresetsSpec.x_term_matrix K k0 k1 kmul kopp L idx).
+Local Notation term_ok := (PresetsPrepare.term_ok K M L idx).
+
+Lemma term_ops_adj : forall n t, term_ok n t -> term_ops (term_adj t) = adjoint_mono (term_ops t).
+Proof.
+  intros n t (H1 & H2 & H3 & H4 & _). unfold PresetsSpec.term_ops, term_adj, adjoint_mono.
+  cbn [t_ops t_labels t_orbs t_spins].
+  rewrite (combine_rev _ _ (t_labels t) (t_orbs t)) by congruence.
+  rewrite (combine_rev _ _ (combine (t_labels t) (t_orbs t)) (t_spins t)) by (rewrite combine_length; lia).
+  rewrite map_rev.
+  rewrite (combine_rev _ _ (map negb (t_ops t)) _)
+    by (rewrite !map_length, !combine_length; lia).
+  rewrite map_rev. f_equal. rewrite map_map.
+  set (G := map _ (combine (combine (t_labels t) (t_orbs t)) (t_spins t))).
+  assert (E : forall (a : list bool) (g : list nat),
+            map (fun x : bool * nat => if fst x then cdag (snd x) else cann (snd x)) (combine (map negb a) g) =
+            map (fun x : bool * nat => flip_type (if fst x then cdag (snd x) else cann (snd x))) (combine a g)).
+  { induction a as [|a0 a IH]; intros [|g0 g]; try reflexivity. cbn [map combine fst snd]. rewrite IH.
+    f_equal. destruct a0; reflexivity. }
+  apply E.
+Qed.
+
+Lemma term_adj_ok : forall n t, term_ok n t -> term_ok n (term_adj t).
+Proof.
+  intros n t H. pose proof (term_ops_adj n t H) as E. destruct H as (H1 & H2 & H3 & H4 & H5).
+  unfold PresetsPrepare.term_ok. rewrite E. unfold term_adj. cbn [t_ops t_labels t_orbs t_spins].
+  rewrite !rev_length, map_length. repeat split; try assumption. apply adjoint_mono_in_range. exact H5.
+Qed.
+
+Lemma c_ksum : forall (A : Type) (l : list A) (f : A -> K), kconj (ksum l f) = ksum l (fun a => kconj (f a)).
+Proof. intros. eapply conj_ksum; eassumption. Qed.
+Lemma c_adj : forall m s t, cm (adjoint_mono m) s t = kconj (cm m t s).
+Proof. intros. eapply coef_mono_adjoint; eassumption. Qed.
+
+Theorem adjoint_closed_hermitian : forall ts : list term,
+  Forall (fun t => term_ok (t_order t) t) ts -> Permutation.Permutation (map term_adj ts) ts ->
+  m_hermitian (fun s u => ksum ts (fun t => x_term_matrix t s u)).
+Proof.
+  intros ts Hok Hp s u Hs Hu. unfold PresetsSpec.m_adj.
+  rewrite c_ksum.
+  transitivity (ksum (map term_adj ts) (fun t => x_term_matrix t s u));
+    [symmetry; eapply ksum_perm; [exact Hring|exact Hp]|].
+  rewrite (AlgebraBasics.ksum_map K k0 kadd). apply ks_ext. intros t Ht.
+  rewrite Forall_forall in Hok. specialize (Hok t Ht).
+  unfold PresetsSpec.x_term_matrix, PresetsSpec.m_scale. rewrite (term_ops_adj _ t Hok).
+  cbn [term_adj t_val]. rewrite conj_mul, c_adj. reflexivity.
+Qed.
+
+(** a user term together with its Hermitian conjugate *)
+Theorem raw_term_with_hc_hermitian : forall m (t : term), 1 <= t_order t -> term_ok (t_order t) t ->
+  exists h, prepare true (lattice_of m [t; term_adj t]) = Done h /\ m_hermitian (cp h).
+Proof.
+  intros m t Hn Hok.
+  assert (Hlen : t_order (term_adj t) = t_order t).
+  { unfold Lattice.t_order, term_adj. cbn [t_ops]. rewrite rev_length, map_length. reflexivity. }
+  assert (Hoks : Forall (fun t0 => term_ok (t_order t0) t0) [t; term_adj t]).
+  { constructor; [exact Hok|]. constructor; [|constructor]. rewrite Hlen. apply term_adj_ok. exact Hok. }
+  destruct (prepare_of_terms K k0 k1 kadd kmul ksub kopp kzero Hring M L idx m [t; term_adj t] Hoks) as (h & E & _ & S).
+  exists h. split; [exact E|].
+  assert (Hinv : term_adj (term_adj t) = t).
+  { destruct t as [o ls os ss v]. unfold term_adj. cbn [t_ops t_labels t_orbs t_spins t_val].
+    rewrite !map_rev, !rev_involutive, map_map, conj_invol. f_equal.
+    rewrite <- (map_id o) at 2. apply map_ext. intros b. apply negb_involutive. }
+  eapply h_meq; [|apply (adjoint_closed_hermitian [t; term_adj t] Hoks)].
+  - intros s u Hs Hu. rewrite S by assumption. apply ks_ext. intros x Hx.
+    assert (Hx1 : 1 <= t_order x) by (destruct Hx as [<-|[<-|[]]]; lia).
+    replace (1 <=? t_order x) with true by (symmetry; apply Nat.leb_le; exact Hx1). reflexivity.
+  - cbn [map]. rewrite Hinv. apply Permutation.perm_swap.
+Qed.
+
 End PF.
+
+
+(** * addMagnetization does NOT denote its documented operator (in any ring with 1 <> 0) *)
+Section MagRefuted.
+Variable K : Type.
+Variables (k0 k1 : K) (kadd kmul ksub : K -> K -> K) (kopp : K -> K).
+Variable kzero : K -> bool.
+Hypothesis Hring : ring_ok K k0 k1 kadd kmul ksub kopp kzero.
+Let Rth : ring_theory k0 k1 kadd kmul ksub kopp (@eq K) := proj1 Hring.
+Add Ring Kring_MR : Rth.
+Variable khalf : K.
+Hypothesis Hhalf : kadd khalf khalf = k1.
+Variable kconj : K -> K.
+Hypothesis Hnontrivial : k1 <> k0.
+
+(** the statement one would like to have: the code as written adds the documented mH 1/2 (n_up - n_down) *)
+Definition addMagnetization_denotes_stmt : Prop :=
+  forall (M : nat) (L : Type) (leqb : L -> L -> bool) (idx : L -> nat -> nat -> nat)
+         (m : site_map L) (l : L) (norb : nat) (mH : K),
+  (forall a b, leqb a b = true <-> a = b) ->
+  Lattice.find_site L leqb l m = Some (norb, 2) -> site_ok M L idx l norb 2 ->
+  denotes K k0 k1 kadd kmul kopp kzero M L idx m
+    (Lattice.addMagnetization L leqb K (kvops K kadd kmul ksub kopp kzero khalf kconj) m l mH)
+    (PresetsSpec.spec_magnetization K k0 k1 kadd kmul ksub khalf L idx l norb mH).
+
+(** witness: one site with one orbital and two spins (index = spin), mH = 1, the state with only the up mode
+    occupied: the code gives 1, the documentation 1/2 *)
+Theorem addMagnetization_denotes_refuted : ~ addMagnetization_denotes_stmt.
+Proof.
+  intro H.
+  set (idx := fun (_ : unit) (a z : nat) => z).
+  set (leqb := fun (_ _ : unit) => true).
+  set (m := [(tt, (1, 2))] : site_map unit).
+  assert (Hl : forall a b : unit, leqb a b = true <-> a = b) by (intros [] []; unfold leqb; tauto).
+  assert (F : Lattice.find_site unit leqb tt m = Some (1, 2)) by reflexivity.
+  assert (S : site_ok 2 unit idx tt 1 2) by (intros a z _ Hz; exact Hz).
+  destruct (H 2 unit leqb idx m tt 1 k1 Hl F S) as (_ & h1 & E1 & D1).
+  destruct (addMagnetization_denotes_twice_documented K k0 k1 kadd kmul ksub kopp kzero Hring khalf Hhalf kconj
+              2 unit leqb idx m tt 1 k1 F S) as (_ & h2 & E2 & D2).
+  rewrite E1 in E2. inversion E2; subst h2. clear E2.
+  pose proof (D1 [false; true] [false; true] eq_refl eq_refl) as A1.
+  pose proof (D2 [false; true] [false; true] eq_refl eq_refl) as A2.
+  rewrite A1 in A2. clear -A2 Hhalf Hnontrivial Hring Rth. unfold idx in A2.
+  cbv [PresetsSpec.spec_magnetization PresetsSpec.m_sum PresetsSpec.rng seq PolySem.ksum fold_right
+       PresetsSpec.m_scale PresetsSpec.m_sz PresetsSpec.m_sub PresetsSpec.m_n PresetsSpec.m_diag PresetsSpec.occ
+       PresetsSpec.up PresetsSpec.down spin_up spin_down state_eqb eqb andb nth] in A2.
+  assert (Hh : khalf = k1).
+  { transitivity (kadd (kmul k1 (kmul khalf (ksub k1 k0))) k0); [ring|]. rewrite A2.
+    transitivity (kadd khalf khalf); [ring|exact Hhalf]. }
+  apply Hnontrivial. rewrite Hh in Hhalf.
+  transitivity (ksub (kadd k1 k1) k1); [ring|]. rewrite Hhalf. ring.
+Qed.
+
+End MagRefuted.
